@@ -52,9 +52,9 @@ var legendreIntervals = [][2]float64{{-1, 1}, {0, 1}, {-3, 5}, {-10, -9.5}, {0, 
 // maxMomentDegree is the highest monomial degree evaluated (the rules are exact up to 2n-1).
 func maxMomentDegree(tier string) int {
 	if tier == "thorough" {
-		return 200
+		return 250
 	}
-	return 100
+	return 150
 }
 
 func genLegendre(g *vlib.G) {
